@@ -532,3 +532,163 @@ Proof.
   intros H. split; [|apply map_length]. unfold row_bounds. rewrite map_map. apply Forall_map_eq.
   rewrite forallb_Forall in H. eapply Forall_impl; [|exact H]. intros t Ht. now apply resolve_bound.
 Qed.
+
+(* ------------------------------------------------------------------ hypotheses are satisfiable *)
+Module Ex.
+  (* names: 1 = "ext.a", 2 = "T", 3 = "List", 4 = "nowhere", 5 = "U", 6 = "Op", 7 = "a definition", 8 = "orig" *)
+  Definition tdT := {| td_ext := 1; td_name := 2; td_descr := 0; td_params := []; td_bound := Explicit Copyable |}%N.
+  Definition tdList :=
+    {| td_ext := 1; td_name := 3; td_descr := 0; td_params := [PType Any]; td_bound := FromParams [O] |}%N.
+  Definition odOp := {| od_ext := 1; od_name := 6; od_descr := 7 |}%N.
+  Definition reg : registry :=
+    [(1, {| e_name := 1; e_types := [(2, tdT); (3, tdList)]; e_ops := [(6, odOp)] |})]%N.
+  Definition tT := TOpaque 1%N 2%N [] Copyable.
+  (* List<T> inside the argument of an unknown type, inside a sum, next to a function type *)
+  Definition t : ty :=
+    TSum [[TOpaque 4%N 5%N [AType (TOpaque 1%N 3%N [AType tT] Copyable); ASeq [AType tT; ANat 3%N]] Any];
+          [TFunc [tT] [TQubit] [1%N]]].
+  Definition c : custom :=
+    {| c_ext := 1; c_name := 6; c_sig := {| ft_in := [tT]; ft_out := [t]; ft_reqs := [] |}; c_descr := 8;
+       c_args := [AType tT] |}%N.
+End Ex.
+(* the boolean guard of the monitor implies the guard of the theorems *)
+Lemma regwf_b_sound reg : regwf_b reg = true -> RegWF reg.
+Proof.
+  unfold regwf_b. intros H. apply andb_true_iff in H as [Hnd Hall]. split.
+  - destruct (nodupb_spec N.eqb N.eqb_spec (map fst reg)); [assumption|discriminate].
+  - intros k x Hin. rewrite forallb_forall in Hall. specialize (Hall _ Hin). cbn [fst snd] in Hall.
+    unfold ext_wf_b in Hall.
+    apply andb_true_iff in Hall as [Hall Ho]. apply andb_true_iff in Hall as [Hall Ht].
+    apply andb_true_iff in Hall as [Hall Hndo]. apply andb_true_iff in Hall as [Hall Hndt].
+    apply andb_true_iff in Hall as [Hname Hne].
+    unfold ext_wf. repeat split.
+    + now apply N.eqb_eq.
+    + apply negb_true_iff in Hne. now apply N.eqb_neq.
+    + destruct (nodupb_spec N.eqb N.eqb_spec (map fst (e_types x))); [assumption|discriminate].
+    + destruct (nodupb_spec N.eqb N.eqb_spec (map fst (e_ops x))); [assumption|discriminate].
+    + rewrite forallb_forall in Ht. specialize (Ht _ H). cbn in Ht. apply andb_true_iff in Ht as [A _].
+      now apply N.eqb_eq.
+    + rewrite forallb_forall in Ht. specialize (Ht _ H). cbn in Ht. apply andb_true_iff in Ht as [_ B].
+      now apply N.eqb_eq.
+    + rewrite forallb_forall in Ho. specialize (Ho _ H). cbn in Ho. apply andb_true_iff in Ho as [A _].
+      now apply N.eqb_eq.
+    + rewrite forallb_forall in Ho. specialize (Ho _ H). cbn in Ho. apply andb_true_iff in Ho as [_ B].
+      now apply N.eqb_eq.
+Qed.
+Lemma ex_regwf : RegWF Ex.reg.
+Proof. apply regwf_b_sound. reflexivity. Qed.
+Example ex_nontrivial :
+  RegWF Ex.reg /\ no_ext Ex.t = true /\ consistent Ex.reg Ex.t = true /\ clean Ex.reg Ex.t = false /\
+  resolve_ty Ex.reg Ex.t <> Ex.t /\ ser_ty (resolve_ty Ex.reg Ex.t) = Some Ex.t /\
+  consistent_op Ex.reg (OCustom Ex.c) = true /\
+  (exists x, resolve_op Ex.reg (OCustom Ex.c) = OExt x) /\
+  (exists s s', ser_op (OCustom Ex.c) = Some (OCustom s) /\ ser_op (resolve_op Ex.reg (OCustom Ex.c)) = Some (OCustom s') /\
+                c_descr s <> c_descr s').
+Proof.
+  split; [exact ex_regwf|]. repeat split; try reflexivity; try discriminate.
+  - eexists; reflexivity.
+  - do 2 eexists. repeat split; try reflexivity. cbn. discriminate.
+Qed.
+
+(* ------------------------------------------------------------------ the property-level statements *)
+Lemma resolve_exactly_when_defined_thm : forall reg, RegWF reg ->
+  (forall e id args b,
+     ((exists d, defines_ty reg e id d /\
+                 resolve_ty reg (TOpaque e id args b) = TExt d (map (resolve_arg reg) args) Generic)
+      <-> resolvable_ty reg e id) /\
+     (resolve_ty reg (TOpaque e id args b) = TOpaque e id (map (resolve_arg reg) args) b
+      <-> ~ resolvable_ty reg e id)) /\
+  (forall c,
+     ((exists d, defines_op reg (c_ext c) (c_name c) d /\
+                 resolve_op reg (OCustom c) =
+                 OExt {| x_def := d; x_sig := resolve_ft reg (c_sig c); x_args := map (resolve_arg reg) (c_args c) |})
+      <-> resolvable_op reg (c_ext c) (c_name c)) /\
+     (resolve_op reg (OCustom c) = OCustom c <-> ~ resolvable_op reg (c_ext c) (c_name c))).
+Proof.
+  intros reg Hwf. split; intros; split;
+    auto using opaque_resolves_iff, opaque_stays_iff, custom_resolves_iff, custom_stays_iff.
+Qed.
+
+Lemma resolve_pointwise_thm : forall reg, RegWF reg ->
+  (forall t, RTy reg t (resolve_ty reg t)) /\ (forall a, RArg reg a (resolve_arg reg a)) /\
+  (forall o, ROp reg o (resolve_op reg o)) /\
+  (forall h, Forall2 (ROp reg) h (resolve_hugr reg h)).
+Proof.
+  intros reg Hwf. repeat split; intros.
+  - now apply resolve_pointwise.
+  - now apply resolve_arg_pointwise.
+  - now apply resolve_op_pointwise.
+  - unfold resolve_hugr. apply Forall_Forall2_map, Forall_forall. intros. now apply resolve_op_pointwise.
+Qed.
+
+Lemma resolve_untouched_otherwise_thm : forall reg,
+  (forall t, clean reg t = true -> resolve_ty reg t = t) /\
+  (forall a, clean_arg reg a = true -> resolve_arg reg a = a) /\
+  (forall x, resolve_op reg (OExt x) = OExt x) /\ (forall k, resolve_op reg (OOther k) = OOther k) /\
+  (RegWF reg -> forall c, ~ resolvable_op reg (c_ext c) (c_name c) -> resolve_op reg (OCustom c) = OCustom c).
+Proof.
+  intros reg. repeat split; intros; try reflexivity.
+  - now apply resolve_clean.
+  - now apply resolve_arg_clean.
+  - now apply custom_stays_iff.
+Qed.
+
+Lemma resolve_preserves_encoding_thm : forall reg, RegWF reg ->
+  (forall t, consistent reg t = true -> ser_ty (resolve_ty reg t) = ser_ty t) /\
+  (forall a, consistent_arg reg a = true -> ser_arg (resolve_arg reg a) = ser_arg a) /\
+  (forall o s, consistent_op reg o = true -> ser_op o = Some s ->
+     exists s', ser_op (resolve_op reg o) = Some s' /\ same_but_descr reg s s') /\
+  (forall h s, forallb (consistent_op reg) h = true -> ser_hugr h = Some s ->
+     exists s', ser_hugr (resolve_hugr reg h) = Some s' /\ Forall2 (same_but_descr reg) s s').
+Proof.
+  intros reg Hwf. repeat split; intros.
+  - now apply resolve_ser.
+  - now apply resolve_arg_ser.
+  - now apply resolve_op_ser.
+  - now apply resolve_hugr_ser.
+Qed.
+
+Lemma resolve_preserves_model_export_thm : forall reg, RegWF reg ->
+  (forall t, to_model (resolve_ty reg t) = to_model t) /\
+  (forall a, arg_to_model (resolve_arg reg a) = arg_to_model a) /\
+  (forall o, export_op (resolve_op reg o) = export_op o).
+Proof.
+  intros reg Hwf. repeat split; intros.
+  - now apply resolve_model.
+  - now apply resolve_arg_model.
+  - now apply resolve_op_export.
+Qed.
+
+Lemma resolve_preserves_facts_thm : forall reg,
+  (forall t, consistent reg t = true -> tbound (resolve_ty reg t) = tbound t) /\
+  (forall o f, outer_signature o = Some f ->
+     exists f', outer_signature (resolve_op reg o) = Some f' /\ (f' = f \/ f' = resolve_ft reg f)) /\
+  (forall f, consistent_ft reg f = true ->
+     ft_reqs (resolve_ft reg f) = ft_reqs f /\
+     length (ft_in (resolve_ft reg f)) = length (ft_in f) /\ length (ft_out (resolve_ft reg f)) = length (ft_out f) /\
+     row_bounds (ft_in (resolve_ft reg f)) = row_bounds (ft_in f) /\
+     row_bounds (ft_out (resolve_ft reg f)) = row_bounds (ft_out f) /\
+     (RegWF reg -> ser_ft (resolve_ft reg f) = ser_ft f)).
+Proof.
+  intros reg. repeat split; intros.
+  - now apply resolve_bound.
+  - now apply resolve_op_signature.
+  - apply map_length.
+  - apply map_length.
+  - unfold consistent_ft in H. apply andb_true_iff in H as [Hi _]. now apply resolve_row_bounds.
+  - unfold consistent_ft in H. apply andb_true_iff in H as [_ Ho]. now apply resolve_row_bounds.
+  - now apply resolve_ft_ser.
+Qed.
+
+Lemma resolve_idempotent_thm : forall reg,
+  (forall t, resolve_ty reg (resolve_ty reg t) = resolve_ty reg t) /\
+  (forall a, resolve_arg reg (resolve_arg reg a) = resolve_arg reg a) /\
+  (forall o, resolve_op reg (resolve_op reg o) = resolve_op reg o) /\
+  (forall h, resolve_hugr reg (resolve_hugr reg h) = resolve_hugr reg h).
+Proof.
+  intros reg. repeat split; intros.
+  - apply resolve_ty_idem.
+  - apply resolve_arg_idem.
+  - apply resolve_op_idem.
+  - apply resolve_hugr_idem.
+Qed.
